@@ -58,6 +58,11 @@ class C05(Harness):
         # integer-valued series (counts): the regressors' outputs are still arbitrary reals
         for strat in ("direct", "multioutput", "recursive", "dirrec"):
             out.append({"name": "%s-tab-noexog-int-k2" % strat, "kind": "reduce", "strategy": strat, "scitype": "tabular-regressor", "exog": False, "K": 2, "N": min(b["n_max"], 5), "int_series": True, "cost": 2})
+        # call sequences on ONE instance: another window_length set between two fits; an update whose data revise
+        # already stored time points (with and without refit)
+        for strat in ("direct", "multioutput", "recursive", "dirrec"):
+            for mode in ("rewindow", "revise", "revise-refit"):
+                out.append({"name": "%s-tab-noexog-%s-k2" % (strat, mode), "kind": "reduce", "strategy": strat, "scitype": "tabular-regressor", "exog": False, "K": 2, "N": min(b["n_max"], 6), "seq": mode, "cost": 2})
         out.append({"name": "dispatch", "kind": "dispatch", "cost": 1})
         return out
 
@@ -81,6 +86,23 @@ class C05(Harness):
             inp["m"] = int(m)
             if inp["wl"] + inp["m"] + inp["fh"][-1] > nn - inp["m"] or cell["strategy"] == "recursive":
                 ctx.assume(False)
+            return inp
+        if cell.get("seq"):
+            need = 1 if cell["strategy"] == "recursive" else inp["fh"][-1]
+            if cell["seq"] == "rewindow":
+                wl2 = ctx.fresh_int("wl2")
+                ctx.assume((wl2 >= 1) & (wl2 <= nn) & (wl2 != wl))
+                inp["wl2"] = int(wl2)
+                if inp["wl"] + need > nn or inp["wl2"] + need > nn:
+                    ctx.assume(False)
+            else:
+                # the update carries r revised values for the newest r stored points, then a new ones
+                r, a = ctx.fresh_int("r"), ctx.fresh_int("a")
+                ctx.assume((r >= 1) & (r <= 2) & (a >= 0) & (a <= 1) & (r <= n))
+                inp["r"], inp["a"] = int(r), int(a)
+                inp["rev"] = fresh_reals(ctx, "rev", inp["r"] + inp["a"])
+                if inp["wl"] + need > nn:
+                    ctx.assume(False)
             return inp
         if cell["exog"]:
             nx = cell.get("nx", 1)
@@ -155,6 +177,21 @@ class C05(Harness):
             fits = list(log)
             pred = f.predict()
             return {"rejected": False, "fits": fits, "index": L(pred.index), "values": L(pred.values), "cls": type(f).__name__}
+        if cell.get("seq"):
+            f.fit(y, fh=fh)
+            first = list(log)
+            if cell["seq"] == "rewindow":
+                f.set_params(window_length=inp["wl2"])
+                del log[:]
+                f.fit(y, fh=fh)
+            else:
+                r, a = inp["r"], inp["a"]
+                ynew = pd.Series(inp["rev"], index=pd.RangeIndex(s0 + n - r, s0 + n + a))
+                if cell["seq"] == "revise-refit":
+                    del log[:]
+                f.update(ynew, update_params=cell["seq"] == "revise-refit")
+            pred = f.predict()
+            return {"rejected": False, "fits": list(log), "first": first, "index": L(pred.index), "values": L(pred.values), "cls": type(f).__name__, "cutoff": S(f.cutoff)}
         try:
             f.fit(y, X, fh=fh)
         except ValueError:
@@ -235,6 +272,29 @@ class C05(Harness):
                 P.eq("dispatch", wl, inp["wl"])
             P.check("unknown-rejected", out["bad_strategy"] and out["bad_scitype"] and out["bad_infer"])
             return
+        if cell.get("seq") and "wl_eff" not in inp:
+            # the state the last fit / the forecast must reflect: the newly set window length, resp. the stored series
+            # with the revised values in place of the superseded ones
+            eff = dict(inp, wl_eff=True)
+            if cell["seq"] == "rewindow":
+                eff["wl"] = inp["wl2"]
+            else:
+                eff["y"] = list(inp["y"][: inp["n"] - inp["r"]]) + list(inp["rev"])
+                eff["n"] = inp["n"] + inp["a"]
+            if cell["seq"] == "revise":
+                # no refit: the regressors stay the ones trained on the original series; only the last window moves
+                self.oracle(P, dict(inp, wl_eff=True), dict(out, index=None), cell)
+                P.eq("index", out["cutoff"], inp["s0"] + eff["n"] - 1, {"what": "cutoff after update"})
+                P.check("index", len(out["index"]) == len(inp["fh"]) and len(out["values"]) == len(inp["fh"]))
+                if len(out["index"]) == len(inp["fh"]):
+                    for lab, h in zip(out["index"], inp["fh"]):
+                        P.eq("index", lab, inp["s0"] + eff["n"] - 1 + h)
+                    exp = self._expected(cell["strategy"], inp["fh"], inp["wl"], eff["y"][eff["n"] - inp["wl"] :])
+                    lab_ = "forecast-is-regressor-output" if cell["strategy"] in ("direct", "multioutput") else "recursive-feedback"
+                    for v, e in zip(out["values"], exp):
+                        P.eq(lab_, v, e, {"what": "window after a revising update"})
+                return
+            return self.oracle(P, eff, out, cell)
         n, wl, fh, y, s0 = inp["n"], inp["wl"], inp["fh"], inp["y"], inp["s0"]
         K, hK = len(fh), fh[-1]
         strat = cell["strategy"]
@@ -305,6 +365,8 @@ class C05(Harness):
                 P.check("no-future-in-row", maxfeat < min(tpos))
         # ---- prediction
         c = s0 + n - 1
+        if out["index"] is None:
+            return  # (training rows only)
         P.check("index", len(out["index"]) == K and len(out["values"]) == K)
         if len(out["index"]) != K:
             return
